@@ -129,23 +129,23 @@ impl FileUploadSession {
         ensures
             // C03/C14: the pointer (hash, size) and the metrics are those of the WHOLE file, for every way `read` fragments it and
             // whatever size `stat` reports (the reported size only sizes the buffer)
-            /*@C03,C14*/ ret matches Ok(p) ==> cleaned_as(p.0, p.1, fs_content(&filename), *processor),
+            /*@C03,C14,C02,C04,C01*/ ret matches Ok(p) ==> cleaned_as(p.0, p.1, fs_content(&filename), *processor),
 //@ body-start
         let ghost content = fs_content(&filename);
 //@ loop 1
         invariant
             // all the loop needs from the buffer sizing: the buffer can hold something
-            /*@C03,C14*/ buffer@.len() > 0,
+            /*@C03,C14,C02,C04,C01*/ buffer@.len() > 0,
             reader.content() == content, content.len() <= usize::MAX,
             0 <= reader.pos() <= content.len(),
             buffer@.len() <= isize::MAX,
             handle.wf(), handle.session() == *processor,
             // the blocks handed to add_data so far, in order, are exactly the bytes read so far
-            /*@C03,C14*/ handle.stream() == content.subrange(0, reader.pos()),
+            /*@C03,C14,C02,C04,C01*/ handle.stream() == content.subrange(0, reader.pos()),
         ensures
             // the loop is left only at end of file
-            /*@C03,C14*/ reader.pos() == content.len(),
-            /*@C03,C14*/ handle.stream() == content.subrange(0, reader.pos()),
+            /*@C03,C14,C02,C04,C01*/ reader.pos() == content.len(),
+            /*@C03,C14,C02,C04,C01*/ handle.stream() == content.subrange(0, reader.pos()),
             handle.wf(), handle.session() == *processor, content.len() <= usize::MAX, 0 <= reader.pos() <= content.len(),
         decreases content.len() - reader.pos(),
 //@ before `let bytes = reader.read`
@@ -233,12 +233,12 @@ pub open spec fn upload_post(s: FileUploadSession, paths: Seq<String>, v: Seq<Po
 //@ contract
         ensures
             // C03/C14: every file cleaned in full, pointer i belongs to file i; C16: Ok only after a successful finalize
-            /*@C03,C14,C16*/ ret matches Ok(v) ==> exists|s: FileUploadSession| upload_post(s, file_paths@, v@),
+            /*@C03,C14,C16,C02,C04,C01*/ ret matches Ok(v) ==> exists|s: FileUploadSession| upload_post(s, file_paths@, v@),
 //@ before `let pointers =`
         let ghost paths0 = file_paths@;
 //@ before `Ok(pointers)`
         // carries the property (ties the returned vector and the finalized session to the postcondition's witness), not a proof convenience
-        /*@C03,C14,C16*/ assert(upload_post(*upload_session, paths0, pointers@));
+        /*@C03,C14,C16,C02,C04,C01*/ assert(upload_post(*upload_session, paths0, pointers@));
 //@ end
 
 // the body of the per-file closure of upload_async
@@ -247,7 +247,7 @@ pub open spec fn upload_post(s: FileUploadSession, paths: Seq<String>, v: Seq<Po
 //@ sig `fn upload_async__each(upload_session: &Arc<FileUploadSession>, f: VxPath) -> (ret: errors::Result<PointerFile>)`
 //@ contract
         requires 0 < spec_INGESTION_BLOCK_SIZE() <= isize::MAX,
-        ensures /*@C03,C14*/ ret matches Ok(pf) ==> each_clean_post(**upload_session, f, pf),
+        ensures /*@C03,C14,C02,C04,C01*/ ret matches Ok(pf) ==> each_clean_post(**upload_session, f, pf),
 //@ end
 
 // ---- download side -------------------------------------------------------------------------------------------------------------------
